@@ -1881,6 +1881,245 @@ fn check_shift(case: &ShiftCase, rec: &mut Rec) -> CaseResult {
     Ok(())
 }
 
+// ---- lists of several loaded grids: proper hits first, then the half-cell margins ----------------
+
+#[derive(Clone, Debug, Serialize, Deserialize)]
+struct MultiCase {
+    /// operator configuration (fam / def / tag as in the catalogue; the grids are in `grids`)
+    op: OpCfg,
+    /// the loaded grids, in the order of the operator's `grids=` list
+    grids: Vec<GridSpec>,
+    fwd: bool,
+    tups: Vec<Tup>,
+    /// where each tuple lies: "proper", "margin-first", "margin-middle", "margin-last", "outside", "edge"
+    place: Vec<String>,
+}
+
+/// 1: within the bounds of `g` extended by `ext` cells on every side
+fn within(g: &GridSpec, lon: f64, lat: f64, ext: f64) -> bool {
+    lon >= g.lon_w as f64 - ext * g.dlon() && lon <= g.lon_e() + ext * g.dlon() && lat >= g.lat_s as f64 - ext * g.dlat() && lat <= g.lat_n() + ext * g.dlat()
+}
+
+/// Classify a position (degrees) against a grid list from the documented look-up rule: the first grid
+/// containing the point, else the first grid having it within its half-cell margin, else nothing.
+/// Guard bands of 0.05 cell around the proper borders and the outer margin borders give `Edge`.
+fn classify_multi(grids: &[GridSpec], lon: f64, lat: f64, null: bool) -> (Cls, String) {
+    if grids.iter().any(|g| within(g, lon, lat, -0.05)) {
+        return (Cls::Interior, "proper".into());
+    }
+    if let Some(k) = grids.iter().position(|g| within(g, lon, lat, 0.45)) {
+        // maybe proper (within the guard band of a border), else in a margin: a hit either way
+        let place = if grids.iter().any(|g| within(g, lon, lat, 0.05)) {
+            "border"
+        } else if k == 0 {
+            "margin-first"
+        } else if k + 1 == grids.len() {
+            "margin-last"
+        } else {
+            "margin-middle"
+        };
+        return (Cls::Interior, place.into());
+    }
+    if grids.iter().all(|g| !within(g, lon, lat, 0.55)) {
+        return (if null { Cls::NullPass } else { Cls::Far }, "outside".into());
+    }
+    (Cls::Edge, "edge".into())
+}
+
+const MULTI_FAMILIES: [&str; 4] = ["gridshift2", "gridshift1", "deflection", "deformation"];
+
+fn build_multi(f: u16, v: &[u16; 4], vf: &[f64; 4], fwd: bool, raw: &[RawTup]) -> MultiCase {
+    let famx = MULTI_FAMILIES[pick(f, 4)];
+    let bands = match famx {
+        "gridshift2" => 2u8,
+        "deformation" => 3,
+        _ => 1,
+    };
+    // grid A: 1 degree spacing, 4..7 nodes each way; B relative to A: disjoint / overlapping / nested; optional C to the north
+    let a = GridSpec {
+        name: "c10.m0".into(),
+        lat_s: -50 + pick(v[0], 91) as i32,
+        lon_w: -140 + pick(v[1], 241) as i32,
+        rows: 4 + split(vf[0], 4).0 as u8,
+        cols: 4 + split(split(vf[0], 4).1, 4).0 as u8,
+        dlat_i: 2,
+        dlon_i: 2,
+        bands,
+        pattern: 0,
+        amp: F(1.0),
+    };
+    let (rel, r) = split(vf[1], 4);
+    let (brows, bcols) = (3 + split(r, 3).0 as u8, 3 + split(split(r, 3).1, 3).0 as u8);
+    let (bi, bj) = (split(vf[2], 3).0 as u8, split(split(vf[2], 3).1, 3).0 as u8);
+    let b = match rel {
+        // disjoint, to the east (a gap of 3 degrees), shifted a little in latitude
+        0 => GridSpec { name: "c10.m1".into(), lat_s: a.lat_s + (v[2] % 3) as i32 - 1, lon_w: a.lon_e() as i32 + 3, rows: brows + 1, cols: bcols + 1, dlat_i: bi, dlon_i: bj, amp: F(2.0), ..a.clone() },
+        // overlapping the north-east part of A
+        1 => GridSpec { name: "c10.m1".into(), lat_s: a.lat_s + 2, lon_w: a.lon_w + 2, rows: brows + 2, cols: bcols + 2, dlat_i: bi.max(1), dlon_i: bj.max(1), amp: F(2.0), ..a.clone() },
+        // nested inside A (finer spacing, at most 2 degrees wide)
+        2 => GridSpec { name: "c10.m1".into(), lat_s: a.lat_s + 1, lon_w: a.lon_w + 1, rows: brows, cols: bcols, dlat_i: bi.min(1), dlon_i: bj.min(1), amp: F(2.0), ..a.clone() },
+        // touching: B starts exactly where A ends (shared border line)
+        _ => GridSpec { name: "c10.m1".into(), lat_s: a.lat_s, lon_w: a.lon_e() as i32, rows: a.rows, cols: bcols + 1, dlat_i: 2, dlon_i: bj, amp: F(2.0), ..a.clone() },
+    };
+    let mut grids = vec![a.clone(), b.clone()];
+    if v[3] % 2 == 0 {
+        let top = a.lat_n().max(b.lat_n()).ceil() as i32;
+        grids.push(GridSpec { name: "c10.m2".into(), lat_s: top + 2, lon_w: a.lon_w + (v[3] % 5) as i32 - 2, rows: 3 + (v[3] % 3) as u8, cols: 4, dlat_i: (v[2] % 3) as u8, dlon_i: 2, amp: F(0.5), ..a.clone() });
+    }
+    // order of the list: any rotation / reversal, so that the margin hit comes from the first, a middle or the last grid
+    let n = grids.len();
+    grids.rotate_left(pick(v[2], n));
+    if split(vf[3], 2).0 == 1 {
+        grids.reverse();
+    }
+    let null = split(split(vf[3], 2).1, 2).0 == 1;
+    let list = grids.iter().map(|g| g.name.clone()).collect::<Vec<_>>().join(",");
+    let nulltxt = if null { ",@null" } else { "" };
+    let (fam, def, tag) = match famx {
+        "gridshift2" => ("gridshift", format!("gridshift grids={list}{nulltxt}"), "datum"),
+        "gridshift1" => ("gridshift", format!("gridshift grids={list}{nulltxt}"), "geoid"),
+        "deflection" => ("deflection", format!("deflection grids={list}{nulltxt} ellps=GRS80"), ""),
+        _ => {
+            if v[0] % 2 == 0 {
+                ("deformation", format!("deformation t_epoch=2010 grids={list}{nulltxt} ellps=GRS80"), "epoch")
+            } else {
+                ("deformation", format!("deformation dt=2.5 grids={list}{nulltxt} ellps=GRS80"), "dt")
+            }
+        }
+    };
+    let op = OpCfg { fam: fam.into(), def, tag: format!("{tag}{}", if null { " null" } else { "" }).trim().to_string(), num: vec![], grid: None };
+    let mut tups = vec![];
+    let mut place = vec![];
+    for (sel, u, m) in raw {
+        let g = &grids[split(u[2], n).0];
+        let (dlat, dlon) = (g.dlat(), g.dlon());
+        let (lat_s, lat_n, lon_w, lon_e) = (g.lat_s as f64, g.lat_n(), g.lon_w as f64, g.lon_e());
+        let (side, r) = split(u[3], 4);
+        // a point at `off` cells beyond side `side` of grid g, the other coordinate anywhere along that side (+- 0.4 cell)
+        let beyond = |off: f64| -> (f64, f64) {
+            let along_lat = lerp(u[1], lat_s - 0.4 * dlat, lat_n + 0.4 * dlat);
+            let along_lon = lerp(u[0], lon_w - 0.4 * dlon, lon_e + 0.4 * dlon);
+            match side {
+                0 => (lon_w - off * dlon, along_lat),
+                1 => (lon_e + off * dlon, along_lat),
+                2 => (along_lon, lat_s - off * dlat),
+                _ => (along_lon, lat_n + off * dlat),
+            }
+        };
+        let (lon, lat) = match sel {
+            0 | 1 => (lerp(u[0], lon_w + 0.06 * dlon, lon_e - 0.06 * dlon), lerp(u[1], lat_s + 0.06 * dlat, lat_n - 0.06 * dlat)),
+            // the half-cell margin of this grid
+            2..=6 => beyond(lerp(r, 0.06, 0.44)),
+            7 => beyond(lerp(r, 0.6, 15.0)),
+            8 => beyond(lerp(r, -0.06, 0.6)),
+            _ => (lerp(u[0], -180.0, 180.0), lerp(u[1], -80.0, 80.0)),
+        };
+        let (cls, pl) = classify_multi(&grids, lon, lat, null);
+        let p = match famx {
+            "gridshift2" => p4(lon.to_radians(), lat.to_radians(), zsel(u[4]), tsel(u[5])),
+            "gridshift1" => p4(lon.to_radians(), lat.to_radians(), lerp(u[4], -500.0, 5000.0), tsel(u[5])),
+            "deflection" => p4(lat, lon, zsel(u[4]), tsel(u[5])),
+            _ => {
+                let c = El::grs80().cartesian(lon.to_radians(), lat.to_radians(), lerp(u[4], -100.0, 3000.0));
+                // epochs different from t_epoch, so that the deformation is not zero
+                p4(c[0], c[1], c[2], [2020.0, 1999.5, 2030.25][split(u[5], 3).0])
+            }
+        };
+        let mask = if *m < 20 { 0 } else { (*m - 16) & 15 };
+        tups.push(Tup { p, mask, cls, via_fwd: false });
+        place.push(pl);
+    }
+    MultiCase { op, grids, fwd, tups, place }
+}
+
+fn multi_strategy() -> impl Strategy<Value = MultiCase> {
+    (
+        any::<u16>(),
+        [any::<u16>(), any::<u16>(), any::<u16>(), any::<u16>()],
+        [unit(), unit(), unit(), unit()],
+        any::<bool>(),
+        prop::collection::vec(raw_tup(), 1..=12),
+    )
+        .prop_map(|(f, v, vf, fwd, raw)| build_multi(f, &v, &vf, fwd, &raw))
+}
+
+fn check_multi(case: &MultiCase, rec: &mut Rec) -> CaseResult {
+    let cfg = &case.op;
+    let fwd = case.fwd;
+    let tr = traits(cfg, fwd);
+    let mut ctx = GridCtx::new();
+    for g in &case.grids {
+        if let Err(e) = ctx.add_grid_bytes(&g.name, g.text().as_bytes()) {
+            vfail!("harness-grid-rejected", "generated Gravsoft grid {g:?} rejected by the library's reader: {e:?}");
+        }
+    }
+    let op = match try_op(&mut ctx, &cfg.def) {
+        Err(p) => vfail!(format!("panic-instantiate@{}", p.sig()), "instantiating '{}' panics: {} at {}:{}", cfg.def, p.msg, p.file, p.line),
+        Ok(Err(e)) => vfail!(format!("catalogue-definition-rejected@{}", cfg.fam), "catalogue definition '{}' rejected: {e:?}", cfg.def),
+        Ok(Ok(op)) => op,
+    };
+    let label = format!("{}-{}{}", cfg.fam, dirname(fwd), if cfg.tag.contains("null") { "-null" } else { "" });
+    rec.class(&label);
+    let geometry = || case.grids.iter().map(|g| format!("{}: lat {}..{} step {}, lon {}..{} step {}", g.name, g.lat_s, g.lat_n(), g.dlat(), g.lon_w, g.lon_e(), g.dlon())).collect::<Vec<_>>().join("; ");
+    let rekey = |mut f: Failure| {
+        f.key = f.key.replacen('@', "@multigrid-", 1);
+        f.msg = format!("{}\n grid list (in look-up order): {}", f.msg, geometry());
+        f
+    };
+    if tr.one_way_inverse {
+        return Ok(());
+    }
+    let mut inputs = vec![];
+    let mut mixed = [false; 2];
+    for (t, pl) in case.tups.iter().zip(&case.place) {
+        let mut before = c4(&t.p);
+        for k in 0..4 {
+            if t.mask & (1 << k) != 0 {
+                before[k] = f64::NAN;
+            }
+        }
+        inputs.push(before);
+        let mut d = vec![before];
+        let count = run_apply(&ctx, op, fwd, &mut d, &cfg.def)?;
+        rec.count(&format!("{label}:{pl}"), 1);
+        mixed[count.min(1)] = true;
+        if let Some(f) = check_tuple(cfg, fwd, &tr, t, &before, &d[0], count) {
+            return Err(rekey(f));
+        }
+        // a hit (grid proper or half-cell margin) must actually apply the grid's correction, which the
+        // generated grids keep away from zero: the worked-on elements cannot all come back bit-identical
+        if t.cls == Cls::Interior && !has_nan(&before) {
+            let changed = (0..4).any(|i| tr.w[i] && !bits_eq(before[i], d[0][i]));
+            vensure!(
+                changed,
+                format!("hit-not-shifted@multigrid-{}-{}", cfg.fam, dirname(fwd)),
+                "the tuple lies inside the coverage of the grid list ({pl}) but comes back unshifted (count {count})\n definition '{}' ({})\n input  {}\n output {}\n grid list (in look-up order): {}",
+                cfg.def, dirname(fwd), fmt_c4(&before), fmt_c4(&d[0]), geometry()
+            );
+        }
+    }
+    // the batch
+    let mut batch = inputs.clone();
+    let n = batch.len();
+    let count = run_apply(&ctx, op, fwd, &mut batch, &cfg.def)?;
+    {
+        let must = case.tups.iter().zip(&inputs).filter(|(t, c)| t.cls == Cls::Interior && !has_nan(c)).count();
+        let must_not = case.tups.iter().zip(&inputs).filter(|(t, c)| t.cls == Cls::Far && !has_nan(c)).count();
+        let nan_free_out = batch.iter().filter(|c| !has_nan(c)).count();
+        vensure!(count <= n, format!("count-exceeds-len@multigrid-{label}"), "'{}' reports {count} successes for {n} tuples", cfg.def);
+        vensure!(
+            count >= must && count <= n - must_not && nan_free_out <= count,
+            format!("batch-count@multigrid-{}-{}", cfg.fam, dirname(fwd)),
+            "'{}' ({}) on a batch of {n}: count {count}, but {must} NaN-free tuples lie inside coverage, {must_not} clearly outside (no @null), {nan_free_out} come back NaN-free\n input {:?}\n grid list: {}",
+            cfg.def, dirname(fwd), inputs.iter().map(fmt_c4).collect::<Vec<_>>(), geometry()
+        );
+    }
+    if mixed[0] && mixed[1] || case.place.iter().any(|p| p.starts_with("margin")) {
+        rec.nontrivial(&(&cfg.def, fwd, inputs.iter().map(|c| [c[0].to_bits(), c[1].to_bits(), c[2].to_bits()]).collect::<Vec<_>>(), case.grids.iter().map(|g| (g.lat_s, g.lon_w, g.rows, g.cols)).collect::<Vec<_>>()));
+    }
+    Ok(())
+}
+
 // ---- main ----------------------------------------------------------------------------------------
 
 const GRID_FAMILIES: [&str; 3] = ["gridshift", "deflection", "deformation"];
@@ -1894,6 +2133,7 @@ fn main() {
     run.assume("dependency table transcribed from the sources; left out: deflection with @null and a NaN position (undocumented), deformation with @null (pass-through: identity only), the epoch dependency of deformation with @null; geodesic/gravity/curvature/deflection (look-up helpers) are exempt from the untouched-axes clause; deformation `raw` replaces the fourth element by design");
     run.assume("grid lists consisting only of unavailable optional (@-prefixed) grids instantiate with an empty list (documented: optional grids do not block instantiation); every point is then outside coverage: without @null it must be NaN-marked and not counted, with @null passed through and counted (gridshift both directions, deflection, deformation both directions; one configuration in five)");
     run.assume("time dependent operators: one tuple epoch in four is exactly the t_epoch (deformation: 2010; helmert: 1988, 2010, and t_obs 2020) of the catalogue's configurations, in every coverage class; deformation is also instantiated with dt=0 exactly; a zero duration is an ordinary in-domain value (result = input, counted) inside coverage and changes nothing about the outside-coverage clause");
+    run.assume("multi-grid: positions are classified in the harness from the grid headers with guard bands of 0.05 cell (inside any grid shrunk by 0.05 cell, or within 0.45 cell of some grid => hit; beyond 0.55 cell of every grid => outside; in between => edge, weak clauses only); generated node values and deformation durations are non-zero, so a hit cannot come back bit-identical");
     run.assume("stand-alone push/pop/stack steps act only inside a pipeline: reporting 0 with the data untouched is accepted for them; pipelines containing a one-way operator are only checked for count = min over the steps (data legitimately stays finite)");
     run.assume("origin-shift: the unshifted input is recomputed with the subtraction the operator itself performs (x - x_0, y - y_0, lon - lon_0), so both operators see bit-identical reduced values; points where the unshifted operator's outcome changes within 1e-9 relative (+1 mm) / 1e-9 rad are excluded (counter excluded_unstable_neighbourhood); only the pattern (count, which elements are NaN) is compared, values belong to C13");
     run.assume("pipeline count is compared with the minimum over the counts of the same steps instantiated stand-alone and applied one after the other to the same data (omit_* modifiers and macros belong to C03/C04)");
@@ -2011,6 +2251,16 @@ fn main() {
             check,
         );
     }
+
+    // 4d. lists of two or three loaded grids
+    let n = run.scale(20_000, 300_000);
+    run.section(
+        "multi-grid",
+        "gridshift (1 and 2 bands), deflection, deformation with a list of 2-3 loaded Gravsoft grids (disjoint, overlapping, nested, touching; any order) with / without @null, both directions; tuples inside a grid proper, inside the half-cell margin of the first / a middle / the last grid only, beyond all margins, around the borders; classified from the documented rule (first grid containing the point, else first grid having it within half a cell): a hit must be counted, finite and actually shifted (grid values are kept away from zero), beyond all margins NaN and uncounted (or passed with @null); singleton and batch; non-trivial = a margin tuple or a batch mixing counted and uncounted tuples",
+        n,
+        multi_strategy,
+        check_multi,
+    );
 
     // 5. the failure pattern moves with the false origin / central meridian
     let n = run.scale(20_000, 300_000);
